@@ -17,7 +17,7 @@ ASSUMPTIONS = [
     "the report grammar is the current one: blocks introduced by a line of 160 '=', lines 'label : value' with the 14 current labels",
 ]
 RULE = ("run = pool of named games + 3-12 ops from {write input file in one of 5 textual styles under inputs/, another directory "
-        "or an absolute path; CLI run (restart, main() -f path [-s] [-l]) under seeded clock/log level/stack depth, optionally with "
+        "or an absolute path; CLI run (restart, main() -f path [-s] [-l]); the same reader/run_games/writer calls made from one long-lived session with the file rewritten in between; under seeded clock/log level/stack depth, optionally with "
         "OSError at open/n-th write/close of the report or open/read of the input, or Ctrl-C/kill at a seeded step inside report "
         "writing; plant a longer/torn/garbage report at the target; restart}; non-trivial = a saved report with >=2 blocks checked, "
         "or an overwrite of a different earlier report, or a fired I/O fault/interrupt; distinct = hash of (op shapes, game hashes, faults fired)")
@@ -59,9 +59,20 @@ def gen(rng, tier, ctx):
                 "games": rng.sample(range(n), k), "style": rng.choice(textstyle.STYLES), "seed": rng.randint(0, 999)}
 
     opl.append(write(paths[0]))
+    session = rng.random() < 0.3      # a long-lived session calling reader / run_games / writer itself
     for _ in range(rng.randint(2, 11 if tier == "thorough" else 8)):
         r = rng.random()
         pth = rng.choice(paths)
+        if session and r < 0.7:
+            if r < 0.25:
+                opl.append(write(pth))
+            op = {"op": "lib", "dir": pth[0], "stem": pth[1], "ext": pth[2], "save": rng.random() < 0.8}
+            if klass == "faulty":
+                env = common.gen_env(rng, True)
+                if env:
+                    op["env"] = env
+            opl.append(op)
+            continue
         if r < 0.2:
             opl.append(write())
         elif r < 0.3:
@@ -186,7 +197,15 @@ def execute(spec, w, ctx):
 
     def run_cli(op, cfg, cap):
         path, rel = _path(w, op)
-        return ops.solver_cli(w, path, bool(op.get("save")), op.get("log"), cfg, op.get("entropy", 0), cap)
+        if op["op"] == "lib":
+            c2 = dict(cfg)
+            if c2.get("log") in ("d", "dd"):
+                c2["log"] = "i"
+            return ops.solver_lib(w, path, bool(op.get("save")), c2, cap)
+        log = op.get("log")
+        if log in ("d", "dd") and sum(usable[g][1] for g in files.get(rel, [])) > 30000:
+            log = "i"       # debug logging emits a record per state per sweep: minutes for long solves
+        return ops.solver_cli(w, path, bool(op.get("save")), log, cfg, op.get("entropy", 0), cap)
 
     for i_op, op in enumerate(spec["ops"]):
         kind = op["op"]
@@ -216,7 +235,7 @@ def execute(spec, w, ctx):
             events.append([i_op, "plant", rel, op["kind"], len(text)])
             shapes.append("p" + op["kind"][0])
             continue
-        if kind != "cli":
+        if kind not in ("cli", "lib"):
             continue
         path, rel = _path(w, op)
         if rel not in files:
@@ -229,6 +248,9 @@ def execute(spec, w, ctx):
             cfg["fs_faults"] = op["fs_faults"]
         before = w.fs.snapshot()
         intr = op.get("interrupt")
+        if intr and sum(usable[g][1] for g in games) > 120000:
+            intr = None         # fine-grained stepping of a long solve costs minutes; run it as a plain op
+            discards["interrupt-skipped-long-solve"] = discards.get("interrupt-skipped-long-solve", 0) + 1
         if intr:
             # measure the clean run first (it is a legitimate op and is checked like any other)
             cap0 = {}
@@ -255,7 +277,9 @@ def execute(spec, w, ctx):
         out = run_cli(op, cfg, cap)
         faulted = bool(out["fs_fired"]) or out["status"] == "interrupt"
         events.append([i_op, "cli", rel, out["status"], out["steps"], out.get("etype"), out["fs_fired"], out.get("site")])
-        shapes.append("c%s%s" % ("s" if op.get("save") else "-", "F" if faulted else ""))
+        shapes.append("%s%s%s" % (kind[0], "s" if op.get("save") else "-", "F" if faulted else ""))
+        if kind == "lib":
+            w.fired("same-process-session-call")
         v = _judge(i_op, op, out, cap, before, w, denoted, clean=not faulted)
         if v is None and out["status"] == "ok" and op.get("save"):
             stem = op["stem"]
